@@ -5,16 +5,16 @@
     fillWly_sound     every instant written is an instance of the rule anchored at the seed, and chosen by BYSETPOS
     fillWly_complete  none missing: an instance `x` chosen by BYSETPOS, at or after the seed, not after UNTIL and not after
                       2099 is in the result `l`, or `l` is full (`capOf r n` elements: `n`, or COUNT if smaller) and all of
-                      `l` comes before `x`.  With `FillOk` (ascending, `fillWly_ok_partial`) this says: `l` is the first
+                      `l` comes before `x`.  With `FillOk` (ascending, `fillWly_ok`) this says: `l` is the first
                       `capOf r n` elements of the recurrence set from the seed on.
     (`fillWly_inst`, `fillWly_complete_nopos`: the same without reference to BYSETPOS / for rules without BYSETPOS)
   BYSETPOS counts within the Monday-based week over all of the week's instances, those before the seed included — the
   code's `nset` / `nday` and the specification's `SetposOk` agree on that.
 
-  Hypothesis added to the brief's: `SeedOk r p` (a DATE seed has no BYHOUR/BYMINUTE/BYSECOND), stronger than `TimeOk`:
-  FALSE without it, e.g. r = { freq := 3, H := [9] }, p = 2020-01-01 (all day): fillWly r p 2 = 2020-01-01T09:00:00,
-  2020-01-08T09:00:00, timed instants, which are not of the seed's kind (`SameKind`); RFC 5545 says BYHOUR is to be
-  ignored there, the code does not ignore it.
+  History: a hypothesis `SeedOk r p` (a DATE seed has no BYHOUR/BYMINUTE/BYSECOND) used to be needed: e.g.
+  r = { freq := 3, H := [9] }, p = 2020-01-01 (all day) gave 2020-01-01T09:00:00, 2020-01-08T09:00:00, timed instants,
+  which are not of the seed's kind (`SameKind`); RFC 5545 says BYHOUR is to be ignored there, and since the repair of
+  `make_enum` the code does ignore it; the hypothesis is gone.
 -/
 import Echse.Lemmas.RrWlyPos4
 namespace Echse.Lemmas.RrWlyRfc
@@ -26,7 +26,7 @@ theorem wly_start0 (c : WlyCtx) (y0 m0 d0 : Nat) (hv0 : VD y0 m0 d0) : Carry y0 
 
 /-- soundness, with two more facts about the instants written (used for the daily filler's hand-over) -/
 theorem fillWly_sound' (r : Rule) (p : Inst) (n : Nat) (l : List Inst) (hr : WfRule r) (hp : WfInst p)
-    (hs : SeedOk r p) (hy : 1901 ≤ p.y) (h : fillWly r p n = some l) :
+    (hy : 1901 ≤ p.y) (h : fillWly r p n = some l) :
     ∀ x ∈ l, WeeklyInst r p x ∧ x.y ≤ 2099 ∧ ltP x p = false := by
   cases hcap : capNti r n with
   | none =>
@@ -36,7 +36,7 @@ theorem fillWly_sound' (r : Rule) (p : Inst) (n : Nat) (l : List Inst) (hr : WfR
     obtain ⟨y0, m0, d0, hv0, hl0, hy0, hback, he⟩ := fillWly_start r p n nti hr hp hy hcap
     rw [he] at h
     obtain ⟨l', hl, rfl⟩ := Option.map_eq_some_iff.1 h
-    have hen : EnumOk (mkCtx r p nti (wlyIncs r)).e := makeEnum_ok r p hr hp hs.timeOk
+    have hen : EnumOk (mkCtx r p nti (wlyIncs r)).e := makeEnum_ok r p hr hp
     have hpy := hp.year
     intro x hx
     refine wlyLoop_sound (mkCtx r p nti (wlyIncs r)) hr hp hen (wlyIncs_nib r)
@@ -49,11 +49,11 @@ theorem fillWly_sound' (r : Rule) (p : Inst) (n : Nat) (l : List Inst) (hr : WfR
     have htm : tm ≤ 12 := by
       have hd0 := hv0.2.2.1
       exact ((hcw.comp o _ _ _ hc).props hv0.1 hv0.2.1 (by omega)).1.2.1
-    exact ⟨wly_inst r p nti hr hp hs hy2 hv0 hl0 hback j o ty tm td ho (hcw.comp o _ _ _ hc) (by omega) hbit t ht, hty, hge⟩
+    exact ⟨wly_inst r p nti hr hp hy2 hv0 hl0 hback j o ty tm td ho (hcw.comp o _ _ _ hc) (by omega) hbit t ht, hty, hge⟩
 
 theorem fillWly_inst (r : Rule) (p : Inst) (n : Nat) (l : List Inst) (hr : WfRule r) (hp : WfInst p)
-    (hs : SeedOk r p) (_hn : n ≤ 64) (hy : 1901 ≤ p.y) (h : fillWly r p n = some l) :
-    ∀ x ∈ l, WeeklyInst r p x := fun x hx => (fillWly_sound' r p n l hr hp hs hy h x hx).1
+    (_hn : n ≤ 64) (hy : 1901 ≤ p.y) (h : fillWly r p n = some l) :
+    ∀ x ∈ l, WeeklyInst r p x := fun x hx => (fillWly_sound' r p n l hr hp hy h x hx).1
 
 /-- the days of a week one of whose days is not after 2099 are not after January 2100 -/
 theorem week_bound {y m d o ty tm td : Nat} (hv : VD y m d) (ho : o ≤ 6) (hc : Carry y m (d + o) ty tm td)
@@ -85,7 +85,7 @@ theorem week_bound {y m d o ty tm td : Nat} (hv : VD y m d) (ho : o ≤ 6) (hc :
 
 /-- completeness, given that the week loop's BYSETPOS test lets `x` pass -/
 theorem wly_complete' (r : Rule) (p : Inst) (n : Nat) (l : List Inst) (hr : WfRule r) (hp : WfInst p)
-    (hs : SeedOk r p) (hy : 1901 ≤ p.y) (h : fillWly r p n = some l)
+    (hy : 1901 ≤ p.y) (h : fillWly r p n = some l)
     (x : Inst) (hx : WeeklyInst r p x) (hge : absOf p ≤ absOf x) (hle : ltP r.untl x = false) (hxy : x.y ≤ 2099)
     (hsk : ∀ nti y0 m0 d0 j y m d o ix, capNti r n = some nti → p.y ≤ 2099 → VD y0 m0 d0 → LowOk y0 m0 → y0 ≤ 2099 →
       Carry y0 m0 (d0 + wlyBack r p) p.y p.m p.d → Carry y0 m0 (d0 + j * wk (wctx r p nti)) y m d →
@@ -105,13 +105,13 @@ theorem wly_complete' (r : Rule) (p : Inst) (n : Nat) (l : List Inst) (hr : WfRu
     obtain ⟨y0, m0, d0, hv0, hl0, hy0, hback, he⟩ := fillWly_start r p n nti hr hp hy hcap
     rw [he] at h
     obtain ⟨l', hl, rfl⟩ := Option.map_eq_some_iff.1 h
-    have hen : EnumOk (wctx r p nti).e := makeEnum_ok r p hr hp hs.timeOk
+    have hen : EnumOk (wctx r p nti).e := makeEnum_ok r p hr hp
     obtain ⟨l2, hl2, hacc⟩ := wlyLoop_spec (wctx r p nti) hr hp (wlyIncs_nib r) (wlyDlyFuel y0 nti) y0 m0 d0 []
       hv0 (by omega) (fun _ => ⟨Acc.nil _ _ _, Below.nil _ _ _⟩) (enough_start y0 m0 d0 nti hv0)
     rw [hl] at hl2
     cases hl2
     have hacc := hacc hen
-    obtain ⟨k, o, ho, hc, hmon, -, ix, hix⟩ := wly_inst_conv r p nti hr hp hs hy2 hv0 hl0 (by omega) hback x hx
+    obtain ⟨k, o, ho, hc, hmon, -, ix, hix⟩ := wly_inst_conv r p nti hr hp hy2 hv0 hl0 (by omega) hback x hx
       (by have := hx.1.2.1; omega)
     rcases wlyLoop_complete (wctx r p nti) hr hp hen (wlyIncs_nib r) x o ho hxy hx.1.2.2.2.2.1 ix hix
       (fun y m d => ∃ j, Carry y0 m0 (d0 + j * wk (wctx r p nti)) y m d)
@@ -126,10 +126,10 @@ theorem wly_complete' (r : Rule) (p : Inst) (n : Nat) (l : List Inst) (hr : WfRu
       exact acc_ltP hacc hxin hx.1.2.2.2.2.1 b2 z (List.mem_reverse.1 hz)
 
 theorem fillWly_complete_nopos (r : Rule) (p : Inst) (n : Nat) (l : List Inst) (hr : WfRule r) (hp : WfInst p)
-    (hs : SeedOk r p) (_hn : n ≤ 64) (hy : 1901 ≤ p.y) (hpos : r.pos = []) (h : fillWly r p n = some l)
+    (_hn : n ≤ 64) (hy : 1901 ≤ p.y) (hpos : r.pos = []) (h : fillWly r p n = some l)
     (x : Inst) (hx : WeeklyInst r p x) (hge : absOf p ≤ absOf x) (hle : ltP r.untl x = false) (hxy : x.y ≤ 2099) :
     x ∈ l ∨ (l.length = capOf r n ∧ ∀ z ∈ l, ltP z x = true) := by
-  refine wly_complete' r p n l hr hp hs hy h x hx hge hle hxy ?_
+  refine wly_complete' r p n l hr hp hy h x hx hge hle hxy ?_
   intro nti y0 m0 d0 j y m d o ix _ _ _ _ _ _ _ _ _ _ _
   unfold wlySkip
   show ((!r.pos.isEmpty) && _) = false
@@ -138,10 +138,10 @@ theorem fillWly_complete_nopos (r : Rule) (p : Inst) (n : Nat) (l : List Inst) (
 /-- C01, soundness of the weekly filler: every instant written is an instance of the rule anchored at the seed and is
 chosen by BYSETPOS (`hf`: the rule's frequency, which `SetposOk` refers to, is WEEKLY — needed only with BYSETPOS) -/
 theorem fillWly_sound (r : Rule) (p : Inst) (n : Nat) (l : List Inst) (hr : WfRule r) (hp : WfInst p)
-    (hs : SeedOk r p) (hn : n ≤ 64) (hy : 1901 ≤ p.y) (hf : r.pos ≠ [] → r.freq = 3) (h : fillWly r p n = some l) :
+    (hn : n ≤ 64) (hy : 1901 ≤ p.y) (hf : r.pos ≠ [] → r.freq = 3) (h : fillWly r p n = some l) :
     ∀ x ∈ l, WeeklyInst r p x ∧ SetposOk r p x := by
   intro x hx
-  refine ⟨fillWly_inst r p n l hr hp hs hn hy h x hx, ?_⟩
+  refine ⟨fillWly_inst r p n l hr hp hn hy h x hx, ?_⟩
   by_cases hpos : r.pos = []
   · exact Or.inl hpos
   · cases hcap : capNti r n with
@@ -152,7 +152,7 @@ theorem fillWly_sound (r : Rule) (p : Inst) (n : Nat) (l : List Inst) (hr : WfRu
       obtain ⟨y0, m0, d0, hv0, hl0, hy0, hback, he⟩ := fillWly_start r p n nti hr hp hy hcap
       rw [he] at h
       obtain ⟨l', hl, rfl⟩ := Option.map_eq_some_iff.1 h
-      have hen : EnumOk (wctx r p nti).e := makeEnum_ok r p hr hp hs.timeOk
+      have hen : EnumOk (wctx r p nti).e := makeEnum_ok r p hr hp
       have hpy := hp.year
       refine wlyLoop_sound (wctx r p nti) hr hp hen (wlyIncs_nib r) (SetposOk r p) y0 m0 d0 hv0 ?_ _ 0
         y0 m0 d0 [] l' (wly_start0 _ y0 m0 d0 hv0) (by omega) (fun z hz => by cases hz) hl x (List.mem_reverse.1 hx)
@@ -163,19 +163,19 @@ theorem fillWly_sound (r : Rule) (p : Inst) (n : Nat) (l : List Inst) (hr : WfRu
       have hd0 := hv0.2.2.1
       obtain ⟨hv, -, -, -⟩ := hcw.props hv0.1 hv0.2.1 (by omega)
       have ho6 := (offs_range (wlyIncs_nib r) (show 0 + 6 ≤ 0 + 6 by omega) ho).2
-      exact (wlySkip_iff r p nti hr hp hs hy2 (hf hpos) hpos hv0 hl0 (by omega) hback j y m d hcw
+      exact (wlySkip_iff r p nti hr hp hy2 (hf hpos) hpos hv0 hl0 (by omega) hback j y m d hcw
         (week_bound hv (by omega) hc hty) o ho ty tm td hc hbit t ht).1 hsk
 
 /-- C01, completeness of the weekly filler: an instance `x` chosen by BYSETPOS, at or after the seed, not after UNTIL
 and not after 2099 is in the result `l`, or `l` is full (`capOf r n` elements) and all of it comes before `x` -/
 theorem fillWly_complete (r : Rule) (p : Inst) (n : Nat) (l : List Inst) (hr : WfRule r) (hp : WfInst p)
-    (hs : SeedOk r p) (hn : n ≤ 64) (hy : 1901 ≤ p.y) (hf : r.pos ≠ [] → r.freq = 3) (h : fillWly r p n = some l)
+    (hn : n ≤ 64) (hy : 1901 ≤ p.y) (hf : r.pos ≠ [] → r.freq = 3) (h : fillWly r p n = some l)
     (x : Inst) (hx : WeeklyInst r p x) (hsp : SetposOk r p x) (hge : absOf p ≤ absOf x)
     (hle : ltP r.untl x = false) (hxy : x.y ≤ 2099) :
     x ∈ l ∨ (l.length = capOf r n ∧ ∀ z ∈ l, ltP z x = true) := by
   by_cases hpos : r.pos = []
-  · exact fillWly_complete_nopos r p n l hr hp hs hn hy hpos h x hx hge hle hxy
-  · refine wly_complete' r p n l hr hp hs hy h x hx hge hle hxy ?_
+  · exact fillWly_complete_nopos r p n l hr hp hn hy hpos h x hx hge hle hxy
+  · refine wly_complete' r p n l hr hp hy h x hx hge hle hxy ?_
     intro nti y0 m0 d0 j y m d o ix _ hy2 hv0 hl0 hy0 hback hcw ho hc hbit hix
     have hd0 := hv0.2.2.1
     obtain ⟨hv, -, -, -⟩ := hcw.props hv0.1 hv0.2.1 (by omega)
@@ -187,7 +187,7 @@ theorem fillWly_complete (r : Rule) (p : Inst) (n : Nat) (l : List Inst) (hr : W
       simp only at hms
       subst hms
       rfl
-    have := (wlySkip_iff r p nti hr hp hs hy2 (hf hpos) hpos hv0 hl0 hy0 hback j y m d hcw
+    have := (wlySkip_iff r p nti hr hp hy2 (hf hpos) hpos hv0 hl0 hy0 hback j y m d hcw
       (week_bound hv (by omega) hc hxy) o ho x.y x.m x.d hc hbit (ix, x.H, x.M, x.S) hix).2
     rw [hxeq] at this
     exact this hsp
